@@ -55,15 +55,22 @@ extern "C" void vh_c15_frame() {
             CellV v{(int64_t)nixsym_i64("i"), sym_name("s", 2, "xy"), nixsym_f64("d")};
             df.writeRow(r, {Variant(v.i), Variant(v.s), Variant(v.d)});
             ref[r] = v; nixsym_reach("written");
-        } else if (op == 2) {
+        } else if (op == 2) {              // one call writing any non-empty subset of the cells of a row, in any order, addressed by index and/or name
+            static const int ORD[15][3] = {{0,-1,-1},{1,-1,-1},{2,-1,-1},{0,1,-1},{1,0,-1},{0,2,-1},{2,0,-1},{1,2,-1},{2,1,-1},{0,1,2},{0,2,1},{1,0,2},{1,2,0},{2,0,1},{2,1,0}};
+            static const char *CN[3] = {"id", "name", "val"};
             uint32_t r = nixsym_choice("row", (uint32_t)ref.size());
-            uint32_t c = nixsym_choice("col", NCOL + 2);      // NCOL, NCOL+1: two cells in one call, mixed addressing
-            if (c == 0) { int64_t x = nixsym_i64("i"); df.writeCell(r, 0, Variant(x)); ref[r].i = x; }
-            else if (c == 1) { std::string x = sym_name("s", 2, "xy"); df.writeCell(r, 1, Variant(x)); ref[r].s = x; }
-            else if (c == 2) { double x = nixsym_f64("d"); df.writeCells(r, {Cell("val", x)}); ref[r].d = x; }
-            else { double x = nixsym_f64("d"); int64_t y = nixsym_i64("i");                       // one call, cells addressed by index and by name
-                   if (c == 3) df.writeCells(r, {Cell(2u, Variant(x)), Cell("id", Variant(y))}); else df.writeCells(r, {Cell("id", Variant(y)), Cell(2u, Variant(x))});
-                   ref[r].d = x; ref[r].i = y; }
+            uint32_t o = nixsym_choice("cells", 15);
+            uint32_t addr = nixsym_choice("addr", 3);         // 0: by index, 1: by name, 2: alternating
+            std::vector<Cell> cells; CellV nv = ref[r];
+            for (int k = 0; k < 3 && ORD[o][k] >= 0; k++) {
+                int c = ORD[o][k]; Variant v;
+                if (c == 0) { nv.i = nixsym_i64("i"); v = Variant(nv.i); } else if (c == 1) { nv.s = sym_name("s", 2, "xy"); v = Variant(nv.s); } else { nv.d = nixsym_f64("d"); v = Variant(nv.d); }
+                bool byname = addr == 1 || (addr == 2 && (k & 1));
+                cells.push_back(byname ? Cell(std::string(CN[c]), v) : Cell((unsigned)c, v));
+            }
+            if (cells.size() == 1 && addr == 0) df.writeCell(r, (unsigned)ORD[o][0], static_cast<const Variant &>(cells[0]));
+            else df.writeCells(r, cells);
+            ref[r] = nv;
         } else if (op == 3) {              // column write with offset/count
             uint32_t off = nixsym_choice("off", (uint32_t)ref.size());
             uint32_t cnt = 1 + nixsym_choice("cnt", (uint32_t)ref.size() - off);
